@@ -171,9 +171,18 @@ class ArityChecker(MultiFunction):
         if args:
             # Check that each list tensor component has the same
             # argument numbers (ignoring parts)
-            numbers = set(tuple(sorted(set(arg[0].number() for arg in op))) for op in ops)
-            if () in numbers:  # Allow e.g. <v[0], 0, v[1]> but not <v[0], u[0]>
-                numbers.remove(())
+            # Components without arguments must vanish: <v[0], 0, v[1]> is linear in v,
+            # <v[0], 1, v[1]> is only affine.
+            numbers = set(
+                tuple(sorted(set(arg[0].number() for arg in op)))
+                for op, operand in zip(ops, o.ufl_operands)
+                if op or not isinstance(operand, Zero)
+            )
+            if () in numbers:
+                raise ArityMismatch(
+                    "Listtensor components that do not depend on form arguments must be zero "
+                    "when other components depend on form arguments."
+                )
             if len(numbers) > 1:
                 raise ArityMismatch(
                     "Listtensor components must depend on the same argument numbers, "
